@@ -483,7 +483,8 @@ fn execute(case: &ConcCase, chooser: &mut Chooser) -> ConcOut {
 
 fn outcomes_agree(conc: &Outcome, seqo: &Outcome) -> bool {
     match (conc, seqo) {
-        (Outcome::Err(_), Outcome::Err(_)) => true, // which error a racing call reports is not documented
+        // the real code re-executed sequentially is the reference: also the kind of an error is
+        // the one some sequential order gives
         (a, b) => a == b,
     }
 }
@@ -816,7 +817,10 @@ fn generate(seed: u64, idx: u64, rng: &mut Rng) -> ConcCase {
             for _ in 0..rng.range(1, 2) {
                 let mut ops = vec![];
                 for _ in 0..rng.range(1, 2) {
-                    ops.push(match rng.below(10) {
+                    ops.push(match rng.below(14) {
+                        10 | 11 => Op::Paths { p: "/p".into() },
+                        12 => Op::AllPaths { p: "/p".into() },
+                        13 => Op::Dirs { p: "/p".into() },
                         0 | 1 | 2 => Op::Readlink { p: "/p".into() },
                         3 => Op::ReadlinkAbs { p: "/p".into() },
                         4 => Op::IsSymlink { p: "/p".into() },
